@@ -28,6 +28,7 @@ import pickle
 
 from mc import refsem
 from mc.exprspec import build, children, depth, to_spec, tup
+from mc.adaptive import amap
 from mc.runner import violation
 
 PROP = "C08"
@@ -638,7 +639,7 @@ def run(ctx):
         k = 4 if fam == "leaves" else nsh
         shards += [("expr", fam, thorough, i, k) for i in range(k)]
     shards += [("pairs", "ints+leaves+d1+d2", thorough, 0, 1)]
-    res = ctx.pmap(_shard, shards)
+    res, how = amap(ctx, _shard, shards)
     for r in res:
         ctx.add_violations(r["vs"])
     kinds = {}
@@ -651,6 +652,7 @@ def run(ctx):
         "distinct_nontrivial": sum(r["nt"] for r in res),
         "samples": [r["sample"] for r in res if r["sample"]][:5],
         "exhaustive": True,
+        "execution": how,
         "bounds": {"names": NAMES, "id_sizes": ID_SIZES, "int_widths": "1..128 x boundary(w) + 8 out-of-range/negative arguments",
                    "max_depth": 2, "family_sizes": sizes, "pickle_protocols": PROTOCOLS},
         "oracle_applications": sum(r["n"] for r in res) * (len(ORACLES) + 6),
